@@ -1195,6 +1195,15 @@ func permutations(k int) [][]int {
 }
 
 func runCSM(prop string, r *common.Rand, tier string, o *common.Out, replay string) {
+	if strings.HasPrefix(replay, "xiso|") {
+		p := strings.Split(replay, "|")
+		m, _ := strconv.Atoi(p[1])
+		c06xRun(o, "replay", client.FailMode(m), p[2])
+		return
+	}
+	if replay == "" && prop == "C06" {
+		c06xAll(o, prop)
+	}
 	if strings.HasPrefix(replay, "late|") {
 		p := strings.Split(replay, "|")
 		n, _ := strconv.Atoi(p[2])
